@@ -15,7 +15,7 @@ RULE = ("seqs_to_regex / seqs_to_consensus / seqlogos on every list of 1..3 equa
         "heat-map matrix vs alpha (below) / beta (above) distances in dendrogram order; non-trivial = data with at least two distinct values")
 ASSUMPTIONS = ["pixels are never inspected, only artist data", "pyplot's figure registry is environment: plt.close('all') after every call",
                "align=True paths need the external mafft-linsi binary (absent) and are outside the quantifier"]
-REQUIRED_CLASSES = {"all": ["gapped-column", "regex-language-checked", "nan-in-counts", "rare-label-black", "every-shuffle-permutation", "repeated-point", "clustermap-paired", "clustermap-single-chain", "shifted-index", "chain-boundary-shift-rows", "zero-in-counts", "non-integer-coordinates", "unsigned-counts", "same-list-edited-in-place", "dot-gaps", "partial-cluster_kws"]}
+REQUIRED_CLASSES = {"all": ["gapped-column", "regex-language-checked", "nan-in-counts", "rare-label-black", "every-shuffle-permutation", "repeated-point", "clustermap-paired", "clustermap-single-chain", "shifted-index", "chain-boundary-shift-rows", "zero-in-counts", "non-integer-coordinates", "unsigned-counts", "same-list-edited-in-place", "dot-gaps", "partial-cluster_kws", "falsy-column-label", "axes-not-current"]}
 MIN_OUTCOMES = 10
 SINGLE_THREAD_RAPIDFUZZ = True
 CD = ("CA", "CS", "AS")
@@ -233,7 +233,7 @@ def _rank(acc, case):
                     boxes.append(lambda v: np.array(v, dtype=np.uint64))      # counts are often stored unsigned
                     acc.cls("unsigned-counts")
                 for box in boxes:
-                    fig, ax = plt.subplots()
+                    fig, (ax, other_) = plt.subplots(1, 2)
                     r = acc.call(P.rankfrequency, box(vals), ax=ax, normalize_x=nx, normalize_y=ny, scalex=sc, scaley=sc)
                     key = "rankfrequency/%s" % ("normalised" if nx or ny else "raw")
                     if raised(r):
@@ -335,13 +335,18 @@ def _scatter_grid(acc, case, pts, gname):
     if len(exp) < len(pts):
         acc.cls("repeated-point")
     for sort in (True, False):
-        fig, ax = plt.subplots()
+        fig, (ax, other) = plt.subplots(1, 2)          # the requested axes are not pyplot's current axes
+        acc.cls("axes-not-current")
         r = acc.call(P.density_scatter, [p[0] for p in pts], [p[1] for p in pts], ax=ax, discrete=True, sort=sort)
         if raised(r):
             acc.fail("density_scatter/raised-" + r.type, case, "axes", r)
             plt.close(fig)
             return False
         coll = [c for c in ax.collections]
+        if other.collections or other.lines:
+            acc.fail("density_scatter/drawn-on-other-axes", case, "points on the requested axes", "points on pyplot's current axes")
+            plt.close(fig)
+            return False
         try:
             sc = coll[-1]
             offs = [tuple(float(v) for v in o) for o in np.asarray(sc.get_offsets())]
@@ -391,7 +396,12 @@ def _cmap(acc, case):
         for index in ("default", "shifted"):
             if index == "shifted" and mode != "paired":
                 continue
-            df = pd.DataFrame({"cdr3a": A, "cdr3b": B, "meta": ["m%d" % (i % 2) for i in range(n)]})
+            # column labels are whatever the caller's table has: names, integers (0 is a valid label), the empty string
+            la, lb = (("cdr3a", "cdr3b"), (0, 1), ("", "b"), (1, 0))[(len(tab) + sum(a for a, b in tab) + (index == "shifted")) % 4] if mode == "paired" else ("cdr3a", "cdr3b")
+            if la in (0, ""):
+                acc.cls("falsy-column-label")
+            df = pd.DataFrame({la: A, lb: B, "meta": ["m%d" % (i % 2) for i in range(n)]})
+            kw_cols = dict(alpha_column=la, beta_column=lb)
             if index == "shifted":
                 df.index = range(11, 11 + n)
                 acc.cls("shifted-index")
@@ -400,6 +410,7 @@ def _cmap(acc, case):
             if "criterion" not in ck:
                 acc.cls("partial-cluster_kws")
             kw = dict(cluster_kws=dict(ck))
+            kw.update(kw_cols)
             if mode == "alpha":
                 kw["beta_column"] = None
                 acc.cls("clustermap-single-chain")
